@@ -145,7 +145,7 @@ func downgrade(t *rapid.T, f M, version string) []string {
 						continue // only set_contact_name's name is a template
 					}
 					if s, ok := a[key].(string); ok && rapid.IntRange(0, 3).Draw(t, "webhookref") == 0 {
-						a[key] = s + rapid.SampledFrom([]string{" @webhook", " @webhook.name", " @(webhook.items[0])", " @(upper(WEBHOOK.name))", " @(if(webhook.ok, \"y\", \"n\"))"}).Draw(t, "whref")
+						a[key] = s + rapid.SampledFrom([]string{" @webhook", " @webhook.name", " @(webhook.items[0])", " @(upper(WEBHOOK.name))", " @(if(webhook.ok, \"y\", \"n\"))", " @(1000000000000000000000000000000000000000 + 1)", " @(webhook.status + 0.1234567890123456789012345678901234567890)"}).Draw(t, "whref")
 						feats = append(feats, "webhook-ref")
 					}
 				}
